@@ -1,13 +1,19 @@
 ---------------------------- MODULE SpecialValues ----------------------------
 (***************************************************************************)
-(* C13 - enumeration of the cases of SpecialDefs.tla: one state per         *)
-(* (family, index); the invariant Emit prints the case of every state.      *)
+(* C13 - enumeration of the cases of SpecialDefs.tla.  One state per        *)
+(*   (1, family, index)   closed-form / class case of a value family,       *)
+(*   (2, family, index)   identity schema instantiated at an enumerated     *)
+(*                        point,                                            *)
+(*   (3, family, 1)       the identity schema itself (variables, domain,    *)
+(*                        guards) for the code -> model direction.          *)
+(* The invariant Emit prints the case of every state; the other invariants  *)
+(* are model-level sanity of the contract (checked by TLC on the model).    *)
 (***************************************************************************)
 EXTENDS SpecialDefs
 
-VARIABLES fam, i
+VARIABLES g, f, i
 
-Catalogue == <<
+ValueFamilies == <<
   [name |-> "factorial.table", n |-> Len(FactTableN)],
   [name |-> "factorial.gamma", n |-> Len(FactGammaN)],
   [name |-> "bernoulli.exact", n |-> BMax + 1],
@@ -17,24 +23,120 @@ Catalogue == <<
   [name |-> "zeta.even",       n |-> BMax \div 2],
   [name |-> "zeta.sum",        n |-> Len(ZetaSumS)],
   [name |-> "zeta.em",         n |-> Len(ZetaEMS)],
-  [name |-> "zeta.lin",        n |-> Len(ZetaLinS)]
+  [name |-> "zeta.lin",        n |-> Len(ZetaLinS)],
+  [name |-> "digamma.int",     n |-> Len(DigammaIntN)],
+  [name |-> "digamma.half",    n |-> Len(DigammaHalfN)],
+  [name |-> "digamma.neghalf", n |-> 8],
+  [name |-> "digamma.quarter", n |-> 2 * Len(DigammaQuarterN)],
+  [name |-> "digamma.negquarter", n |-> 12],
+  [name |-> "trigamma.int",    n |-> Len(TrigammaIntN)],
+  [name |-> "trigamma.half",   n |-> Len(TrigammaHalfN)],
+  [name |-> "trigamma.neghalf", n |-> 6],
+  [name |-> "trigamma.quarter", n |-> 2 * Len(TrigammaQuarterN)],
+  [name |-> "trigamma.negquarter", n |-> 8],
+  [name |-> "polygamma.int",   n |-> Len(PolyNs) * 9],
+  [name |-> "polygamma.half",  n |-> Len(PolyNs) * 6],
+  [name |-> "gamma.int",       n |-> Len(GammaIntN)],
+  [name |-> "gamma.half",      n |-> Len(GammaHalfN)],
+  [name |-> "gamma.neghalf",   n |-> Len(GammaNegHalfN)],
+  [name |-> "lgamma.int",      n |-> Len(GammaIntN)],
+  [name |-> "lgamma.half",     n |-> Len(GammaHalfN)],
+  [name |-> "lgamma.neghalf",  n |-> Len(GammaNegHalfN)],
+  [name |-> "mlgamma.closed",  n |-> Len(MlgKs) * 7],
+  [name |-> "mgamma.closed",   n |-> Len(MlgKs) * 7],
+  [name |-> "gammap.tiny",     n |-> 4],
+  [name |-> "gammap.edge",     n |-> Len(GammaEdgeList)],
+  [name |-> "logerfc.asym",    n |-> Len(LogErfcAsymX)],
+  [name |-> "besseli.gen",     n |-> Len(BesGenXs)],
+  [name |-> "besseli.edge",    n |-> Len(BesEdgeList)],
+  [name |-> "logadd.inf",      n |-> Len(LogInfList)],
+  [name |-> "class",           n |-> Len(ClassList)]
 >>
 
-CaseAt(f, k) ==
-  CASE f = "factorial.table" -> FactorialCase(f, FactTableN[k])
-    [] f = "factorial.gamma" -> FactorialCase(f, FactGammaN[k])
-    [] f = "bernoulli.exact" -> BernoulliExact(k - 1)
-    [] f = "bernoulli.odd"   -> BernoulliOdd(BernOddN[k])
-    [] f = "bernoulli.rec"   -> BernoulliRec(BernRecM[k])
-    [] f = "zeta.neg"        -> ZetaNeg(k)
-    [] f = "zeta.even"       -> ZetaEven(k)
-    [] f = "zeta.sum"        -> ZetaSum(ZetaSumS[k])
-    [] f = "zeta.em"         -> ZetaEM(ZetaEMS[k])
-    [] f = "zeta.lin"        -> ZetaLin(ZetaLinS[k])
+Q13(k) == IF k % 2 = 1 THEN 1 ELSE 3
+ValueCase(name, k) ==
+  CASE name = "factorial.table" -> FactorialCase(name, FactTableN[k])
+    [] name = "factorial.gamma" -> FactorialCase(name, FactGammaN[k])
+    [] name = "bernoulli.exact" -> BernoulliExact(k - 1)
+    [] name = "bernoulli.odd"   -> BernoulliOdd(BernOddN[k])
+    [] name = "bernoulli.rec"   -> BernoulliRec(BernRecM[k])
+    [] name = "zeta.neg"        -> ZetaNeg(k)
+    [] name = "zeta.even"       -> ZetaEven(k)
+    [] name = "zeta.sum"        -> ZetaSum(ZetaSumS[k])
+    [] name = "zeta.em"         -> ZetaEM(ZetaEMS[k])
+    [] name = "zeta.lin"        -> ZetaLin(ZetaLinS[k])
+    [] name = "digamma.int"     -> DigammaInt(DigammaIntN[k])
+    [] name = "digamma.half"    -> DigammaHalf(DigammaHalfN[k])
+    [] name = "digamma.neghalf" -> DigammaNegHalf(k)
+    [] name = "digamma.quarter" -> DigammaQuarter(DigammaQuarterN[(k + 1) \div 2], Q13(k))
+    [] name = "digamma.negquarter" -> DigammaNegQuarter((k + 1) \div 2, Q13(k))
+    [] name = "trigamma.int"    -> TrigammaInt(TrigammaIntN[k])
+    [] name = "trigamma.half"   -> TrigammaHalf(TrigammaHalfN[k])
+    [] name = "trigamma.neghalf" -> TrigammaNegHalf(k)
+    [] name = "trigamma.quarter" -> TrigammaQuarter(TrigammaQuarterN[(k + 1) \div 2], Q13(k))
+    [] name = "trigamma.negquarter" -> TrigammaNegQuarter((k + 1) \div 2, Q13(k))
+    [] name = "polygamma.int"   -> LET n == PolyNs[((k - 1) \div 9) + 1] IN PolygammaInt(n, PolyIntM(n)[((k - 1) % 9) + 1])
+    [] name = "polygamma.half"  -> LET n == PolyNs[((k - 1) \div 6) + 1] IN PolygammaHalf(n, PolyHalfM(n)[((k - 1) % 6) + 1])
+    [] name = "gamma.int"       -> GammaValue("int", GammaIntN[k])
+    [] name = "gamma.half"      -> GammaValue("half", GammaHalfN[k])
+    [] name = "gamma.neghalf"   -> GammaValue("neghalf", GammaNegHalfN[k])
+    [] name = "lgamma.int"      -> LgammaValue("int", GammaIntN[k])
+    [] name = "lgamma.half"     -> LgammaValue("half", GammaHalfN[k])
+    [] name = "lgamma.neghalf"  -> LgammaValue("neghalf", GammaNegHalfN[k])
+    [] name = "mlgamma.closed"  -> LET kk == MlgKs[((k - 1) \div 7) + 1] IN MlgammaClosed(MlgX2(kk)[((k - 1) % 7) + 1], kk)
+    [] name = "gammap.tiny"     -> GammaTiny(<<1, 2, 3, 5>>[k])
+    [] name = "gammap.edge"     -> GammaEdge(GammaEdgeList[k])
+    [] name = "logerfc.asym"    -> LogErfcAsym(k)
+    [] name = "besseli.gen"     -> BesGen(BesGenXs[k])
+    [] name = "besseli.edge"    -> BesEdge(BesEdgeList[k])
+    [] name = "logadd.inf"      -> LogInf(LogInfList[k])
+    [] name = "class"           -> ClassCase(k)
+    [] name = "mgamma.closed"   -> LET kk == MlgKs[((k - 1) \div 7) + 1] IN MgammaClosed(MlgX2(kk)[((k - 1) % 7) + 1], kk)
 
-Init == \E c \in 1..Len(Catalogue) : fam = Catalogue[c].name /\ i \in 1..Catalogue[c].n
-Next == UNCHANGED <<fam, i>>
-Spec == Init /\ [][Next]_<<fam, i>>
+GFam(what)  == [a \in 1..Len(GIntAs)  |-> [s |-> GIntS(what, GIntAs[a]),   p |-> GIntP(GIntAs[a])]]
+GHFam(what) == [a \in 1..Len(GHalfMs) |-> [s |-> GHalfS(what, GHalfMs[a]), p |-> GHalfP(GHalfMs[a])]]
+IdFamilies == <<
+  [s |-> DigammaRecS,  p |-> DigammaRecP],
+  [s |-> DigammaReflS, p |-> DigammaReflP],
+  [s |-> DigammaDupS,  p |-> DigammaDupP],
+  [s |-> TrigammaRecS,  p |-> TrigammaRecP],
+  [s |-> TrigammaReflS, p |-> TrigammaReflP],
+  [s |-> TrigammaDupS,  p |-> TrigammaDupP],
+  [s |-> GammaRecS,  p |-> GammaRecP],
+  [s |-> GammaReflS, p |-> GammaReflP],
+  [s |-> GammaDupS,  p |-> GammaDupP],
+  [s |-> LgammaRecS, p |-> LgammaRecP],
+  [s |-> LgammaLogS, p |-> LgammaLogP],
+  [s |-> PolyDelegateS(0), p |-> PolyDelegateP],
+  [s |-> PolyDelegateS(1), p |-> PolyDelegateP]
+>> \o [a \in 1..Len(PolyNs) |-> [s |-> PolyRecS(PolyNs[a]),  p |-> PolyRecP(PolyNs[a])]]
+   \o [a \in 1..Len(PolyNs) |-> [s |-> PolyReflS(PolyNs[a]), p |-> PolyReflP(PolyNs[a])]]
+   \o [a \in 1..Len(PolyNs) |-> [s |-> PolyDupS(PolyNs[a]),  p |-> PolyDupP(PolyNs[a])]]
+   \o [a \in 1..3 |-> [s |-> MlgammaSumS(a + 1), p |-> MlgammaSumP(a + 1)]]
+   \o [a \in 1..3 |-> [s |-> MgammaLogS(a + 1),  p |-> MgammaLogP(a + 1)]]
+   \o GFam("p") \o GFam("q") \o GFam("lower") \o GFam("upper") \o GFam("d1") \o GFam("d2")
+   \o GHFam("p") \o GHFam("q") \o GHFam("d1")
+   \o << [s |-> GammaPQS, p |-> GPointsAll], [s |-> GammaRecPS, p |-> GPointsAll], [s |-> GammaLUS, p |-> GPointsSmall],
+          [s |-> GammaLPS, p |-> GPointsSmall], [s |-> GammaUQS, p |-> GPointsSmall], [s |-> GammaD1S, p |-> GPointsSmall],
+          [s |-> GammaD2S, p |-> GPointsSmall],
+          [s |-> LogErfcSmallS, p |-> LogErfcSmallP], [s |-> LogErfcMidS, p |-> LogErfcMidP],
+          [s |-> BesRecS, p |-> BesRecP], [s |-> LogBesLogS, p |-> LogBesLogP], [s |-> LogBesRecS, p |-> LogBesRecP],
+          [s |-> BesNegIntS, p |-> BesNegIntP],
+          [s |-> LogAddLinS, p |-> LogAddLinP], [s |-> LogSubLinS, p |-> LogSubLinP],
+          [s |-> LogAddRatS, p |-> RatPairs], [s |-> LogSubRatS, p |-> RatSubPairs] >>
+   \o [a \in 1..Len(BesHalfNs) |-> [s |-> BesHalfS(BesHalfNs[a]), p |-> BesHalfP(BesHalfNs[a])]]
+   \o [a \in 1..6 |-> [s |-> LogBesHalfS(a - 2), p |-> LogBesHalfP(a - 2)]]
 
-Emit == PrintT(ToJson(CaseAt(fam, i)))
+CaseOf(gg, ff, k) ==
+  IF gg = 1 THEN ValueCase(ValueFamilies[ff].name, k)
+  ELSE IF gg = 2 THEN InstCase(IdFamilies[ff].s, IdFamilies[ff].p[k], "")
+  ELSE IdFamilies[ff].s
+
+Init == \/ /\ g = 1 /\ f \in 1..Len(ValueFamilies) /\ i \in 1..ValueFamilies[f].n
+        \/ /\ g = 2 /\ f \in 1..Len(IdFamilies) /\ i \in 1..Len(IdFamilies[f].p)
+        \/ /\ g = 3 /\ f \in 1..Len(IdFamilies) /\ i = 1
+Next == UNCHANGED <<g, f, i>>
+Spec == Init /\ [][Next]_<<g, f, i>>
+
+Emit == PrintT(ToJson(CaseOf(g, f, i)))
 =============================================================================
